@@ -3,7 +3,7 @@ from __future__ import annotations
 
 import ast
 
-from .. import AnalysisError, flow, states
+from .. import AnalysisError, flow, states, rules
 from ..report import Ctx
 
 OSM = "nrel/hive/model/roadnetwork/osm/osm_roadnetwork.py"
@@ -90,20 +90,63 @@ def osm_route(ctx: Ctx):
         ctx.soft_fail("OSMRoadNetwork.route: no assembling path")
 
 
+PAIR_ITERABLES = lambda path: {  # spellings of "every consecutive node pair of the path, in order"
+    f"[({path}[i], {path}[i + 1]) for i in range(0, len({path}) - 1)]",
+    f"[({path}[i], {path}[i + 1]) for i in range(len({path}) - 1)]",
+    f"zip({path}, {path}[1:])", f"zip({path}[:-1], {path}[1:])", f"list(zip({path}, {path}[1:]))", f"list(zip({path}[:-1], {path}[1:]))",
+}
+
+
 def inner_links(ctx: Ctx):
     fn = ctx.repo.func(OPS, "route_from_nx_path")
     path, look = fn.params[:2]
+    pairs_ok = PAIR_ITERABLES(path)
+    inner = ctx.repo.func_opt(OPS, "route_from_nx_path._accumulate_links")
+    loop_form = inner is None or not any(flow.calls_in(p.value, "reduce") for p in flow.paths(fn.node) if p.kind == "return" and p.value is not None)
+    if loop_form:
+        # the same fold written as a loop that appends one link per pair and returns the error at the first missing link
+        n_app = n_err = 0
+        for p in flow.paths(fn.node):
+            if p.kind != "return" or p.value is None:
+                continue
+            it = [c for c in p.conds if c.pol == "iter"]
+            v = flow.dump(p.value)
+            if not it:
+                if v == "(None, ())":
+                    ok = any(c.pol == "skip" for c in p.conds) or gd_len1(p, path)
+                    ctx.check(ok, "D1", "DU.route", "an empty inner route only for a one-node path / no pairs", fn, p.end, why_bad="empty inner route under another condition", construct="route_from_nx_path:empty")
+                continue
+            src = flow.dump(flow.subst(it[0].raw.iter, p.env)) if hasattr(it[0].raw, "iter") else "?"
+            ctx.check(src in pairs_ok, "D1", "DU.route", "inner links = fold over every consecutive node pair of the path, in order", fn, it[0].raw, why_bad=f"loops over {src[:160]}", construct="route_from_nx_path:pairs")
+            el = f"$elem({src})"
+            link = f"{look}.get(create_link_id({el}[0], {el}[1]))"
+            if flow.classify_result(p.value) == "error":
+                n_err += 1
+                found = any(flow.dump(a) == link and pol is False for a, pol in p.facts())
+                ctx.check(found, "D1", "DU.route", "a node pair without a link in the table is an error (all links exist in the network)", fn, p.end, why_bad="error under another condition", construct="_accumulate_links:missing-link")
+            else:
+                n_app += 1
+                want = f"(None, () + ({link}.to_link_traversal(),))"
+                want2 = f"(None, ({link}.to_link_traversal(),))"
+                ctx.check(v in (want, want2), "D1", "DU.route", "each node pair (a, b) contributes the link a-b of the link table, appended in order", fn, p.end, why_bad=v[:200], construct="_accumulate_links:append")
+                found = any(flow.dump(a) == link and pol is True for a, pol in p.facts())
+                ctx.check(found, "D1", "DU.route", "a node pair without a link in the table is an error (all links exist in the network)", fn, p.end, why_bad="missing link tolerated", construct="_accumulate_links:missing-link")
+        if n_app < 1 or n_err < 1:
+            ctx.soft_fail("route_from_nx_path (loop form): appending / error paths not found")
+        return
     for p in flow.paths(fn.node):
         if p.kind != "return":
             continue
         v = flow.dump(p.value)
         if v == "(None, ())":
-            ok = any(flow.dump(a) == f"len({path}) == 1" and pol is True for a, pol in p.facts())
+            ok = gd_len1(p, path)
             ctx.check(ok, "D1", "DU.route", "a one-node path yields the empty inner route", fn, p.end, why_bad="empty inner route under another condition", construct="route_from_nx_path:empty")
         else:
-            want = f"ft.reduce(_accumulate_links, [({path}[i], {path}[i + 1]) for i in range(0, len({path}) - 1)], (None, ()))"
-            ctx.check(v == want, "D1", "DU.route", "inner links = fold over every consecutive node pair of the path, in order", fn, p.end, why_bad=v[:200], construct="route_from_nx_path:pairs")
-    inner = ctx.repo.func(OPS, "route_from_nx_path._accumulate_links")
+            ok = False
+            for F, XS, INIT in rules.recognise_folds(fn):
+                if flow.dump(F) == "_accumulate_links" and flow.dump(XS) in pairs_ok and flow.dump(INIT) == "(None, ())":
+                    ok = True
+            ctx.check(ok, "D1", "DU.route", "inner links = fold over every consecutive node pair of the path, in order", fn, p.end, why_bad=v[:200], construct="route_from_nx_path:pairs")
     acc, pair = inner.params[:2]
     seen = 0
     for p in flow.paths(inner.node):
@@ -119,6 +162,11 @@ def inner_links(ctx: Ctx):
         ctx.check(found, "D1", "DU.route", "a node pair without a link in the table is an error (all links exist in the network)", inner, p.end, why_bad="missing link tolerated", construct="_accumulate_links:missing-link")
     if seen < 1:
         ctx.soft_fail("_accumulate_links: appending path not found")
+
+
+def gd_len1(p, path: str) -> bool:
+    from .. import gd
+    return gd.allowed_lengths(p.facts(), path, grid=range(0, 4)) == {1}
 
 
 def resolve(ctx: Ctx):
